@@ -46,9 +46,7 @@ ASSUMPTIONS = [
     'inputs of at most N positions, sub-rule behaviour tables over those positions; repetitions that make no progress and recursion deeper than the stated '
     'level (the real parse does not terminate / nests deeper) are excluded by assumption on the reference before the real run',
     'grammars use seq, sor, opt, star, plus, at, not_at, must, opt_must, try_catch_type/any_return_false, try_catch_type/any_raise_nested, one directly '
-    'recursive rule; raise< T > is NOT in the default set: coverage<>() over a grammar that reaches raise< T > throws std::out_of_range from std::map::at '
-    '(coverage_state::raise looks up the branch entry ( raise< T >, T ) that visit<> never creates because raise< T >::subs_t is empty, and the rule entry of T '
-    'if T does not occur elsewhere) — a defect of the facility that is reported, opt-in with C08COV_RAISE=1',
+    'recursive rule, raise< T > with T occurring elsewhere in the grammar (the branch entry ( raise< T >, T ) is created on demand when the raise is counted)',
 ]
 
 S0, S1, S2 = 'sym<0>', 'sym<1>', 'sym<2>'
@@ -336,6 +334,7 @@ HARNESS = r'''/* generated harness — C08 coverage check
 #include "symcheck.h"
 static const u8 cov_kid[COV_NR * COV_NR] = { %(kid)s };
 static const u8 cov_nkids[COV_NR] = { %(nkids)s };
+static const u8 cov_dyn[COV_NR * COV_NR] = { %(dyn)s };   /* ( raise< T >, T ): branch entry created on demand when the raise is counted */
 #include "c08_cov.h"
 
 %(spec)s
@@ -388,15 +387,19 @@ def texts(gtext, opts, quick):
     wrap = WRAP % {'preamble': '\n'.join(pre), 'grammar': repr(parse(gtext)), 'types': ',\n   '.join(n.cxx for n in m.order), 'action': act}
     kid = []
     nk = []
+    dyn = []
     for a in m.order:
         ks = {k.idx for k in a.kids}
         nk.append(len(ks))
         kid += ['1' if b.idx in ks else '0' for b in m.order]
+        # raise< T >: T is not a sub-rule (subs_t is empty); the branch entry ( raise< T >, T ) is created when the raise is counted
+        tgt = m.nodes.get(repr(a.target)) if a.kind == 'raise' and a.target is not None else None
+        dyn += ['1' if (tgt is not None and b.idx == tgt.idx) else '0' for b in m.order]
     N = opts.get('N', 3 if quick else 4)
     reach = ['  REACH(%s, "%s");' % (c, t) for (c, t) in opts.get('reach', [])]
     h = HARNESS % {'grammar': gtext, 'rules': '\n'.join(' *   rule %2d = %s   [%s, subs: %s]' % (n.idx, n.cxx, n.kind, ' '.join(str(k.idx) for k in n.kids) or '-') for n in m.order),
                    'N': N, 'K': opts.get('K', 3), 'maxres': opts.get('maxres', 3), 'NR': NR, 'vetomax': 2 if action else 0,
-                   'kid': ', '.join(kid), 'nkids': ', '.join(map(str, nk)), 'spec': g.text(), 'root': root, 'reach': '\n'.join(reach)}
+                   'kid': ', '.join(kid), 'nkids': ', '.join(map(str, nk)), 'dyn': ', '.join(dyn), 'spec': g.text(), 'root': root, 'reach': '\n'.join(reach)}
     return m, wrap, h, N
 
 
@@ -442,9 +445,9 @@ GRAMMARS = [
     # void action that throws, caught inside the run
     ('throwact', 'named< 0, sor< try_catch_any_return_false< named< 1, %s > >, %s >, %s >' % (S0, S1, S2),
      {'stk': True, 'action': 'void', 'reach': [R_FALSE, R_FOREIGN2, R_CONT(1), ('e.r == 1 && sp_veto(101, sp_start) == 2 && T_res[0][sp_start] == 1', 'the action of a rule that matched threw, the exception was caught inside the run')]}),
-    # opt-in (C08COV_RAISE=1): demonstrates the raise<> defect of the facility, see ASSUMPTIONS
-    ('raise', 'named< 0, sor< %s, raise< %s > >, %s >' % (S0, S1, S1),
-     {'raise_only': True, 'reach': [R_GLOBAL]}),
+    # raise< T >: the blamed rule is not a sub-rule of raise< T >; coverage<>() used to throw std::out_of_range here (fixed: known_findings.json C08_COVRAISE)
+    ('raise', 'named< 0, opt< %s >, raise< %s >, %s >' % (S0, S1, S1),
+     {'raise_only': True, 'mem_gb': 12, 'N': 2, 'reach': [R_GLOBAL]}),
     # thorough tier only
     ('optmust', 'named< 0, opt_must< %s, %s, named< 1, %s > >, %s >' % (S0, S1, S2, S2),
      {'thorough_only': True, 'reach': [R_FALSE, R_GLOBAL, R_RAISE, R_FOREIGN2]}),
@@ -469,7 +472,7 @@ def plan(ctx):
         if ctx.quick() and opts.get('thorough_only'):
             continue
         if opts.get('raise_only') and not os.environ.get('C08COV_RAISE'):
-            continue
+            continue   # whole-run query for raise< T >: no verdict in 760 s (the result map grows at run time); the hook is checked as one step below
         o = dict(opts)
         if not ctx.quick():
             o.update(opts.get('thorough', {}))
@@ -516,4 +519,10 @@ def plan(ctx):
             # if the solver times out, a check that already failed on the real build for one of the 20 000 validation inputs is replayed and reported (a defect in the
             # bookkeeping can make the symbolic run much more expensive: exceptions from map::at open many more paths)
             qs[-1].replay_failing_samples = True
+    # the raise hook for raise< T > as one step of the real coverage_state from the map visit<> builds (T inside / outside the grammar, with / without parent)
+    su = ctx.unit('c08cov_raise_step', cpp=os.path.join(vf.VERIF, 'harness', 'c08_covraise.cpp'),
+                  cxxflags=['-I', stub, '-DVSTUB_CAP=8', '-DVSTUB_CAP_SMALL=4', '-DVSTUB_SMALL_BYTES=48', '-DVSTUB_TYPED'], ll2c=['--inline-gep', '--typed-memset'], real_cxxflags=[])
+    qs.append(vf.Query('raise_step', su, os.path.join(vf.VERIF, 'harness', 'c08_covraise.c'), unwind=12, unwindset=['x_memcmp.0:90', 'x_bcmp.0:90'], mem_gb=4,
+                       bounds={'grammars': ['seq< sor< T1, raise< T1 > > >', 'seq< sor< T1, raise< T2 > > >'], 'state': 'result map as filled by visit<>, name stack empty or [ raise< T > ]'},
+                       note='coverage_state::raise< T >() counts the raise and does not throw although ( raise< T >, T ) is not a sub-rule edge'))
     return qs
